@@ -156,6 +156,23 @@ def normalise(cm, version, side):
         if s.get("pattern") == "":
             s["pattern"] = None
     o = cm["options"]
+    # a pattern name that names no pattern of the model carries nothing (Options() itself starts with the dangling default '1')
+    pats = set(cm["patterns"])
+    if o["hydraulic"].get("pattern") not in pats:
+        o["hydraulic"]["pattern"] = None
+    if o["energy"].get("global_pattern") not in pats:
+        o["energy"]["global_pattern"] = None
+    for e in cm["nodes"].values():
+        for ts in e.get("demand_timeseries_list") or []:
+            if ts.get("pattern_name") not in pats:
+                ts["pattern_name"] = None
+    # [CONTROLS] knows the level of a tank / the pressure of a junction only: a head condition is the same condition in
+    # another datum (head = elevation + level / pressure)
+    for c in cm["controls"]:
+        a = c["cond"]
+        if a[0] == "val" and a[3] == "head" and a[1] in ("Tank", "Junction") and a[2] in cm["nodes"]:
+            a[3] = "level" if a[1] == "Tank" else "pressure"
+            a[5] = a[5] - cm["nodes"][a[2]]["elevation"]
     for (g, k) in EXCLUDED_OPTIONS:
         o[g].pop(k, None)
     if version == 2.0:
@@ -462,7 +479,14 @@ class FnReader:
         cv = self.conv_of(leaf)
         if cv:
             fn, pt, pn, dw, order, mass, val = cv
-            src = self.chain(val)
+            if isinstance(val, ast.Name) and len(self.assigns.get(val.id, [])) > 1:
+                # a local that is adjusted on the way (threshold = threshold - elevation): named after where it starts from
+                first = min(self.assigns[val.id], key=lambda a: a[1].lineno)
+                src = self.chain(first[0], (val.id,))
+                if src.startswith("const:") or src in ("expr",):
+                    src = "local:" + val.id
+            else:
+                src = self.chain(val)
         else:
             fn, pt, pn, dw, order, mass = "", "", "", False, "", False
             src = self.chain(leaf)
@@ -693,7 +717,7 @@ FIELDS = []
 FIELDS += [
     _F("Junction", "name", "JUNCTIONS", "wn.junction_name_list[]", "add_junction.name"),
     _F("Junction", "elevation", "JUNCTIONS", "elevation", "add_junction.elevation"),
-    _F("Junction", "demand_timeseries_list", "JUNCTIONS", "local:base_demand", "add_junction.base_demand"),
+    _F("Junction", "demand_timeseries_list", "JUNCTIONS", "demand_timeseries_list.base_demand_list()[0]", "add_junction.base_demand"),
     _F("Junction", "demand_timeseries_list", "JUNCTIONS", "demand_timeseries_list.pattern_list()[0]", "add_junction.demand_pattern"),
     _F("Junction", "demand_timeseries_list", "DEMANDS", "demand_timeseries_list[].base_value", "demand_timeseries_list.append.0"),
     _F("Junction", "demand_timeseries_list", "DEMANDS", "demand_timeseries_list[].pattern_name", "demand_timeseries_list.append.1"),
@@ -929,3 +953,672 @@ def gen_schema_inp_lean(wntr, rows, kw):
     out.append("")
     out.append("end Wntr.InpSchema.Gen")
     return "\n".join(out) + "\n", len(uniq)
+
+
+# ================================================================================================ precision of the file format (from the translator)
+
+def fmt_tolerance(fmt):
+    """(relative, absolute) error bound IN FILE UNITS of printing a float with `fmt` and parsing it again"""
+    f = fmt.strip().lstrip("<>^")
+    m = re.match(r"^(\d*)(?:\.(\d+))?([gfeEGdsn]?)$", f)
+    if fmt == "repr" or not m:
+        return (0.0, 0.0) if fmt == "repr" else None
+    prec, typ = m.group(2), m.group(3)
+    if typ in ("g", "G"):
+        n = int(prec) if prec is not None else 6
+        return (0.5 * 10.0 ** (1 - max(n, 1)), 0.0)
+    if typ in ("f",):
+        n = int(prec) if prec is not None else 6
+        return (0.0, 0.5 * 10.0 ** (-n))
+    if typ == "d":
+        return (0.0, 0.0)
+    if typ in ("s", "") and prec is None:
+        return (0.0, 0.0)  # str(float) / '{}'.format(float): shortest repr, exact
+    return None
+
+
+class Precision:
+    """per (class, key, guard token) the writer's conversion and format, taken from the rows the translator extracted"""
+
+    ROUND = 4e-15  # two conversions there and back in double precision
+
+    def __init__(self, wntr, rows):
+        self.wntr = wntr
+        self.rows = rows
+        self.cache = {}
+
+    def lookup(self, cls, key, alt=None, whint=None):
+        k = (cls, key, alt, whint)
+        if k in self.cache:
+            return self.cache[k]
+        res = None
+        for (c, ky, wsec, w, wt, rsec, r, rt) in FIELDS:
+            if c != cls or ky != key:
+                continue
+            if alt is not None and wt and alt not in wt:
+                continue
+            if whint is not None and whint not in w and whint not in wsec:
+                continue
+            cands = [x for x in self.rows if x["sec"] == wsec and x["dir"] == "w" and x["name"] == w and not x["const"]
+                     and all(t in x["ctx"].split("|") for t in wt)]
+            cands.sort(key=lambda x: (x["fmt"] == "",))
+            if cands:
+                res = (cands[0], wsec)
+                break
+        self.cache[k] = res
+        return res
+
+    def to_file(self, row, units, wn, x):
+        if not row["conv"]:
+            return x
+        U = self.wntr.epanet.util
+        par = (U.HydParam if row["ptype"] == "Hyd" else U.QualParam)[row["pname"]]
+        kw = {}
+        if row["dw"]:
+            kw["darcy_weisbach"] = wn.options.hydraulic.headloss == "D-W"
+        if row["order"]:
+            kw["reaction_order"] = getattr(wn.options.reaction, row["order"])
+        fn = U.from_si if row["conv"] == "from_si" else U.to_si
+        return float(fn(U.FlowUnits[units], x, par, **kw))
+
+    def same(self, cls, key, a, b, units, wn, alt=None, whint=None):
+        """(equal at the precision of the file?, description of the bound used)"""
+        if a == b:
+            return True, "equal"
+        if not (isinstance(a, (int, float)) and isinstance(b, (int, float))) or isinstance(a, bool) or isinstance(b, bool):
+            return False, "not numeric"
+        got = self.lookup(cls, key, alt, whint)
+        if got is None:
+            return abs(a - b) <= self.ROUND * max(abs(a), abs(b)), "no format found for %s.%s: exact" % (cls, key)
+        row, sec = got
+        tol = fmt_tolerance(row["fmt"])
+        if tol is None:
+            return abs(a - b) <= self.ROUND * max(abs(a), abs(b)), "format %r not numeric: exact" % row["fmt"]
+        fa, fb = self.to_file(row, units, wn, a), self.to_file(row, units, wn, b)
+        bound = tol[0] * abs(fa) * (1 + 1e-9) + tol[1] * (1 + 1e-9) + self.ROUND * max(abs(fa), abs(fb)) + 1e-300
+        return abs(fa - fb) <= bound, "[%s] %s written as {:%s}: |%.17g - %.17g| vs %.3g in file units" % (sec, key, row["fmt"], fa, fb, bound)
+
+
+# ================================================================================================ comparison
+
+def link_cls(e):
+    if e["link_type"] == "Pump":
+        return "HeadPump" if e.get("pump_type") == "HEAD" else "PowerPump"
+    if e["link_type"] == "Valve":
+        return "GPValve" if e.get("valve_type") == "GPV" else "Valve"
+    return "Pipe"
+
+
+def flatten_cond(c, p="IF"):
+    if c[0] == "and":
+        return flatten_cond(c[1], p) + flatten_cond(c[2], "AND")
+    if c[0] == "or":
+        return flatten_cond(c[1], p) + flatten_cond(c[2], "OR")
+    return [(p, c)]
+
+
+def cond_shape(c):
+    return [c[0], cond_shape(c[1]), cond_shape(c[2])] if c[0] in ("and", "or") else "atom"
+
+
+class Comparer:
+    """field-by-field comparison of two canonical models; failures get stable keys `<section>-<attribute>-<what>`"""
+
+    def __init__(self, prec, wn0, units, version, m0):
+        self.p, self.wn, self.u, self.v, self.m0 = prec, wn0, units, version, m0
+        self.out = []  # (key, path, old, new, note)
+
+    def fail(self, key, path, old, new, note=""):
+        self.out.append((key, path, old, new, note))
+
+    def num(self, sec, cls, key, path, a, b, alt=None, whint=None, label=None):
+        ok, note = self.p.same(cls, key, a, b, self.u, self.wn, alt, whint)
+        if not ok:
+            self.fail("%s-%s-%s" % (sec, label or key, "value" if isinstance(a, (int, float)) and isinstance(b, (int, float)) and not isinstance(a, bool) else "changed"),
+                      path, a, b, note)
+
+    def elements(self, kind, a, b):
+        for name in a:
+            if name not in b:
+                self.fail("%s-element-lost" % kind, "/%s/%s" % (kind, name), name, "<absent>")
+        for name in b:
+            if name not in a:
+                self.fail("%s-element-appeared" % kind, "/%s/%s" % (kind, name), "<absent>", name)
+        return [n for n in a if n in b]
+
+    def run(self, c0, c2):
+        qp = c0["options"]["quality"].get("parameter")
+        qalt = qp if qp in ("CHEMICAL", "AGE") else "else:AGE"
+        default1 = "1" in c0["patterns"] and self.m0["options"]["hydraulic"].get("pattern") is None
+        for name in self.elements("nodes", c0["nodes"], c2["nodes"]):
+            x, y = c0["nodes"][name], c2["nodes"][name]
+            cls = x["node_type"]
+            sec = {"Junction": "junctions", "Tank": "tanks", "Reservoir": "reservoirs"}[cls]
+            for k in sorted(set(x) | set(y)):
+                p = "/nodes/%s/%s" % (name, k)
+                if k not in x or k not in y:
+                    self.fail("%s-%s-%s" % (sec, k, "lost" if k in x else "appeared"), p, x.get(k, "<absent>"), y.get(k, "<absent>"))
+                elif k == "coordinates":
+                    for i in (0, 1):
+                        self.num("coordinates", cls, k, p + "[%d]" % i, x[k][i], y[k][i])
+                elif k == "demand_timeseries_list":
+                    self.demands(name, x[k], y[k], default1)
+                elif k == "initial_quality":
+                    self.num("quality", cls, k, p, x[k] or 0.0, y[k] or 0.0, alt=qalt)
+                elif k in ("emitter_coefficient",):
+                    self.num("emitters", cls, k, p, x[k] or 0.0, y[k] or 0.0)
+                elif k == "bulk_coeff":
+                    self.num("reactions", cls, k, p, x[k], y[k]) if x[k] is not None and y[k] is not None else (x[k] == y[k] or self.fail("reactions-bulk_coeff-changed", p, x[k], y[k]))
+                elif k in ("tag",):
+                    x[k] == y[k] or self.fail("tags-tag-changed", p, x[k], y[k])
+                elif k in ("mixing_model", "mixing_fraction"):
+                    if k == "mixing_fraction" and x.get("mixing_model") not in ("Mix2", "2COMP", "TwoComp"):
+                        continue  # the fraction belongs to the two-compartment model only
+                    self.num("mixing", cls, k, p, x[k], y[k])
+                else:
+                    self.num(sec, cls, k, p, x[k], y[k])
+        for name in self.elements("links", c0["links"], c2["links"]):
+            x, y = c0["links"][name], c2["links"][name]
+            cls = link_cls(x)
+            sec = {"Pipe": "pipes", "HeadPump": "pumps", "PowerPump": "pumps", "Valve": "valves", "GPValve": "valves"}[cls]
+            if cls != link_cls(y):
+                self.fail("%s-type-changed" % sec, "/links/%s" % name, cls, link_cls(y))
+                continue
+            for k in sorted(set(x) | set(y)):
+                p = "/links/%s/%s" % (name, k)
+                if k not in x or k not in y:
+                    self.fail("%s-%s-%s" % (sec, k, "lost" if k in x else "appeared"), p, x.get(k, "<absent>"), y.get(k, "<absent>"))
+                elif k == "vertices":
+                    if len(x[k]) != len(y[k]):
+                        self.fail("vertices-vertices-count", p, x[k], y[k])
+                    else:
+                        for i, (va, vb) in enumerate(zip(x[k], y[k])):
+                            for j in (0, 1):
+                                self.num("vertices", cls, k, p + "[%d][%d]" % (i, j), va[j], vb[j])
+                elif k == "initial_setting":
+                    if cls in ("HeadPump", "PowerPump"):
+                        # [STATUS] holds ONE word per link: a closed pump has no place for a speed setting, and a speed
+                        # setting of 1.0 is the format's default (not written)
+                        a = 1.0 if x[k] is None else x[k]
+                        b = 1.0 if y[k] is None else y[k]
+                        if x.get("initial_status") in ("Closed", "CLOSED", 0):
+                            continue
+                        self.num("status", cls, k, p, a, b)
+                    elif cls == "Valve":
+                        vt = x.get("valve_type")
+                        self.num("valves", cls, k, p, x[k], y[k], alt={"PRV": "PRV", "PSV": "PRV", "PBV": "PRV", "FCV": "FCV", "TCV": "TCV"}.get(vt))
+                elif k in ("bulk_coeff", "wall_coeff"):
+                    self.num("reactions", cls, k, p, x[k], y[k]) if x[k] is not None and y[k] is not None else (x[k] == y[k] or self.fail("reactions-%s-changed" % k, p, x[k], y[k]))
+                elif k == "tag":
+                    x[k] == y[k] or self.fail("tags-tag-changed", p, x[k], y[k])
+                elif k in ("efficiency", "energy_price", "energy_pattern"):
+                    self.num("energy", cls, k, p, x[k], y[k]) if x[k] is not None and y[k] is not None else (x[k] == y[k] or self.fail("energy-%s-changed" % k, p, x[k], y[k]))
+                elif k == "initial_status":
+                    x[k] == y[k] or self.fail("%s-initial_status-changed" % ("status" if cls != "Pipe" else "pipes"), p, x[k], y[k])
+                else:
+                    self.num(sec, cls, k, p, x[k], y[k])
+        for name in self.elements("curves", c0["curves"], c2["curves"]):
+            x, y = c0["curves"][name], c2["curves"][name]
+            if x["curve_type"] != y["curve_type"]:
+                self.fail("curves-curve_type-changed", "/curves/%s/curve_type" % name, x["curve_type"], y["curve_type"])
+            if len(x["points"]) != len(y["points"]):
+                self.fail("curves-points-count", "/curves/%s/points" % name, x["points"], y["points"])
+            else:
+                for i, (pa, pb) in enumerate(zip(x["points"], y["points"])):
+                    for j in (0, 1):
+                        self.num("curves", "Curve", "points", "/curves/%s/points[%d][%d]" % (name, i, j), pa[j], pb[j], alt=x["curve_type"], whint="[][%d]" % j,
+                                 label="points-%s" % x["curve_type"])
+        for name in self.elements("patterns", c0["patterns"], c2["patterns"]):
+            x, y = c0["patterns"][name]["multipliers"], c2["patterns"][name]["multipliers"]
+            if len(x) != len(y):
+                self.fail("patterns-multipliers-count", "/patterns/%s" % name, x, y)
+            else:
+                for i, (a, b) in enumerate(zip(x, y)):
+                    self.num("patterns", "Pattern", "multipliers", "/patterns/%s/multipliers[%d]" % (name, i), a, b)
+        if len(c0["sources"]) != len(c2["sources"]):
+            self.fail("sources-source-count", "/sources", c0["sources"], c2["sources"])
+        else:
+            for i, (x, y) in enumerate(zip(c0["sources"], c2["sources"])):
+                for k in ("node_name", "source_type", "pattern"):
+                    x[k] == y[k] or self.fail("sources-%s-changed" % k, "/sources[%d]/%s" % (i, k), x[k], y[k])
+                alt = "MASS" if x["source_type"].upper() == "MASS" else "else:MASS"
+                ok, note = self.p.same("Source", "strength", x["strength"], y["strength"], self.u, self.wn, alt)
+                if not ok:
+                    self.fail("sources-strength-mass-read-as-concentration" if alt == "MASS" else "sources-strength-value", "/sources[%d]/strength" % i, x["strength"], y["strength"], note)
+        for g in c0["options"]:
+            x, y = c0["options"][g], c2["options"][g]
+            for k in sorted(set(x) | set(y)):
+                p = "/options/%s/%s" % (g, k)
+                sec = {"time": "times", "reaction": "reactions", "energy": "energy"}.get(g, "options")
+                if k not in x or k not in y:
+                    self.fail("%s-%s-%s" % (sec, k, "lost" if k in x else "appeared"), p, x.get(k, "<absent>"), y.get(k, "<absent>"))
+                elif g == "hydraulic" and k == "pattern" and default1 and x[k] is None and y[k] == "1":
+                    self.fail("options-pattern-default-1", p, x[k], y[k], "a pattern named '1' exists and no default pattern is set")
+                elif x[k] is None or y[k] is None or isinstance(x[k], str) or isinstance(y[k], str):
+                    x[k] == y[k] or self.fail("%s-%s-changed" % (sec, k), p, x[k], y[k])
+                else:
+                    self.num(sec, "Options." + g, k, p, x[k], y[k])
+        self.controls(c0, c2)
+        return self.out
+
+    def demands(self, name, x, y, default1):
+        p = "/nodes/%s/demand_timeseries_list" % name
+        if len(x) != len(y):
+            self.fail("demands-entries-count", p, x, y)
+            return
+        for i, (a, b) in enumerate(zip(x, y)):
+            self.num("demands" if len(x) > 1 else "junctions", "Junction", "demand_timeseries_list", "%s[%d]/base_val" % (p, i), a["base_val"], b["base_val"],
+                     whint="DEMANDS" if len(x) > 1 else "JUNCTIONS", label="base_demand")
+            if a["pattern_name"] != b["pattern_name"]:
+                if default1 and a["pattern_name"] is None and b["pattern_name"] == "1":
+                    self.fail("options-pattern-default-1", "%s[%d]/pattern_name" % (p, i), None, "1", "a pattern named '1' exists and no default pattern is set")
+                else:
+                    self.fail("demands-pattern_name-changed", "%s[%d]/pattern_name" % (p, i), a["pattern_name"], b["pattern_name"])
+            if a["category"] != b["category"]:
+                self.fail("demands-category-single-entry-lost" if len(x) == 1 else "demands-category-changed", "%s[%d]/category" % (p, i), a["category"], b["category"])
+
+    # ---- controls and rules
+    def value(self, sec, cls, key, path, a, b, label):
+        ok, note = self.p.same(cls, key, a, b, self.u, self.wn)
+        if not ok:
+            self.fail("%s-%s-value" % (sec, label), path, a, b, note)
+
+    def vtype(self, name):
+        e = self.m0["links"].get(name, {})
+        return {"PRV": "PRV", "PSV": "PRV", "PBV": "PRV", "FCV": "FCV", "TCV": "TCV"}.get(e.get("valve_type"))
+
+    def atom(self, sec, path, a, b, phase):
+        if a[:2] != b[:2] or (a[0] == "val" and a[:5] != b[:5]):
+            if sec == "controls" and a[0] == "val" and b[0] == "val" and a[1] == "Tank" and a[3] == "head" and b[3] == "level" and a[1:3] == b[1:3]:
+                self.fail("controls-condition-tank-head-read-as-level", path, a, b)
+            elif sec == "controls" and a[0] == "val" and b[0] == "val" and a[:4] == b[:4]:
+                self.fail("controls-condition-relation-changed", path, a, b)
+            else:
+                self.fail("%s-condition-changed" % sec, path, a, b)
+            return
+        if a[0] in ("time", "clock"):
+            if a[2] != b[2]:
+                self.fail("%s-%s-seconds-lost" % (sec, a[0]) if int(a[2]) == a[2] else "%s-%s-fraction" % (sec, a[0]), path, a, b)
+            if a[3:] != b[3:]:
+                self.fail("%s-%s-repeat-changed" % (sec, a[0]), path, a, b)
+            return
+        attr, obj = a[3], a[1]
+        x, y = a[5], b[5]
+        if attr == "status":
+            x == y or self.fail("%s-condition-status-changed" % sec, path, a, b)
+        elif sec == "controls":
+            self.value(sec, "Control", "threshold." + ("Tank" if obj == "Tank" else "Junction"), path, x, y, "threshold")
+        elif attr == "setting":
+            vt = self.vtype(a[2])
+            if vt in ("PRV", "FCV"):
+                self.value(sec, "Rule", "%s.setting.%s" % (phase, vt), path, x, y, "setting")
+            else:
+                self.rule_plain(path, x, y, "setting")
+        elif attr in ("demand", "flow", "pressure", "head", "level"):
+            self.value(sec, "Rule", "%s.%s" % (phase, attr), path, x, y, attr)
+        else:
+            x == y or self.fail("%s-condition-value" % sec, path, a, b)
+
+    def rule_plain(self, path, x, y, label):
+        # unconverted rule values are printed with the same {:.6g} (translator: RULES rows without conversion)
+        if x != y and not (isinstance(x, (int, float)) and isinstance(y, (int, float)) and abs(x - y) <= 0.5e-5 * abs(x) * (1 + 1e-9)):
+            self.fail("rules-%s-value" % label, path, x, y, "{:.6g}")
+
+    def actions(self, sec, path, xs, ys, phase):
+        if len(xs) != len(ys):
+            self.fail("%s-%s-actions-count" % (sec, phase.lower()), path, xs, ys)
+            return
+        for i, (a, b) in enumerate(zip(xs, ys)):
+            p = "%s[%d]" % (path, i)
+            if a[:3] != b[:3]:
+                if sec == "controls" and a[:2] == b[:2] and {a[2], b[2]} == {"setting", "base_speed"}:
+                    self.fail("controls-action-pump-setting-read-as-base_speed", p, a, b)
+                else:
+                    self.fail("%s-action-changed" % sec, p, a, b)
+                continue
+            if a[2] == "status" or isinstance(a[3], str) or isinstance(b[3], str):
+                a[3] == b[3] or self.fail("%s-action-value-changed" % sec, p, a, b)
+            elif a[2] == "setting" and self.vtype(a[1]) in ("PRV", "FCV"):
+                vt = self.vtype(a[1])
+                if sec == "controls":
+                    self.value(sec, "Control", "setting." + vt, p, a[3], b[3], "setting")
+                else:
+                    self.value(sec, "Rule", "%s.setting.%s" % (phase, vt), p, a[3], b[3], "setting")
+            elif sec == "controls":
+                self.value(sec, "Control", "setting.TCV" if a[2] == "setting" else "base_speed", p, a[3], b[3], a[2])
+            else:
+                self.rule_plain(p, a[3], b[3], a[2])
+
+    def controls(self, c0, c2):
+        if len(c0["controls"]) != len(c2["controls"]):
+            self.fail("controls-control-count", "/controls", len(c0["controls"]), len(c2["controls"]))
+        else:
+            for i, (x, y) in enumerate(zip(c0["controls"], c2["controls"])):
+                p = "/controls[%d]" % i
+                self.atom("controls", p + "/cond", x["cond"], y["cond"], "IF") if x["cond"][0] not in ("and", "or") and y["cond"][0] not in ("and", "or") \
+                    else (x["cond"] == y["cond"] or self.fail("controls-condition-changed", p, x["cond"], y["cond"]))
+                self.actions("controls", p + "/then", x["then"], y["then"], "THEN")
+                x["priority"] == y["priority"] or self.fail("controls-priority-changed", p, x["priority"], y["priority"])
+        r0 = {r["name"]: r for r in c0["rules"]}
+        r2 = {r["name"]: r for r in c2["rules"]}
+        if [r["name"] for r in c0["rules"]] != [r["name"] for r in c2["rules"]]:
+            self.fail("rules-rule-names", "/rules", [r["name"] for r in c0["rules"]], [r["name"] for r in c2["rules"]])
+        for name in r0:
+            if name not in r2:
+                continue
+            x, y = r0[name], r2[name]
+            p = "/rules/%s" % name
+            fx, fy = flatten_cond(x["cond"]), flatten_cond(y["cond"])
+            if [q for q, _ in fx] != [q for q, _ in fy]:
+                self.fail("rules-condition-changed", p + "/cond", x["cond"], y["cond"])
+            else:
+                if cond_shape(x["cond"]) != cond_shape(y["cond"]):
+                    self.fail("rules-condition-mixed-and-or-regrouped", p + "/cond", x["cond"], y["cond"], "same clauses, different tree")
+                for j, ((_, a), (_, b)) in enumerate(zip(fx, fy)):
+                    self.atom("rules", "%s/cond#%d" % (p, j), a, b, "IF")
+            self.actions("rules", p + "/then", x["then"], y["then"], "THEN")
+            self.actions("rules", p + "/else", x["else"], y["else"], "ELSE")
+            x["priority"] == y["priority"] or self.fail("rules-priority-changed", p, x["priority"], y["priority"])
+
+
+# ================================================================================================ cases
+
+def base_spec():
+    return {
+        "patterns": [{"name": "p1", "mult": [1.0, 1.5]}],
+        "curves": [],
+        "junctions": [{"name": "J1", "elev": 10.0, "coords": [1.0, 2.0], "demands": [[0.01, None, None]]},
+                      {"name": "J2", "elev": 12.0, "coords": [3.0, 2.0], "demands": [[0.02, "p1", None]]}],
+        "tanks": [{"name": "T1", "elev": 20.0, "init": 3.0, "min": 1.0, "max": 5.0, "diam": 10.0, "minvol": 0.0, "overflow": False, "coords": [5.0, 5.0]}],
+        "reservoirs": [{"name": "R1", "head": 50.0, "pat": None, "coords": [0.0, 0.0]}],
+        "pipes": [{"name": "P1", "a": "R1", "b": "J1", "len": 100.0, "diam": 0.3, "rough": 100.0, "mloss": 0.0, "status": "OPEN", "cv": False, "vertices": []},
+                  {"name": "P2", "a": "J1", "b": "J2", "len": 100.0, "diam": 0.3, "rough": 100.0, "mloss": 0.0, "status": "OPEN", "cv": False, "vertices": []},
+                  {"name": "P3", "a": "J2", "b": "T1", "len": 100.0, "diam": 0.3, "rough": 100.0, "mloss": 0.0, "status": "OPEN", "cv": False, "vertices": []}],
+        "pumps": [], "valves": [], "sources": [], "controls": [],
+        "options": {"hydraulic": {"pattern": None}},
+    }
+
+
+def directed_specs():
+    """one small model per defect class named in DESIGN §6 (always run, whatever the seed)"""
+    out = []
+
+    def mk(label, f):
+        sp = base_spec()
+        f(sp)
+        out.append((label, sp))
+
+    def ctl(cond, act=("P2", "status", "CLOSED"), name="control 1"):
+        return {"name": name, "kind": "control", "cond": cond, "then": [list(act)], "else": [], "priority": 3}
+
+    def rule(cond, name="r1", prio=3):
+        return {"name": name, "kind": "rule", "cond": cond, "then": [["P2", "status", "OPEN"]], "else": [], "priority": prio}
+
+    mk("time-control-seconds", lambda sp: sp["controls"].extend([ctl(["time", "=", 3661]), ctl(["clock", "=", 4139], name="control 2")]))
+    mk("rule-and-or", lambda sp: sp["controls"].append(rule(["or", ["and", ["val", "node", "T1", "level", ">", 4.0], ["val", "node", "J1", "pressure", "<", 10.0]],
+                                                            ["time", ">=", 7200]])))
+    mk("rule-clock-noon", lambda sp: sp["controls"].extend([rule(["clock", ">=", 45000], "rc1"), rule(["clock", "<", 1800], "rc2"), rule(["clock", "=", 43200], "rc3"),
+                                                            rule(["clock", ">", 0], "rc4"), rule(["time", ">=", 86400 + 3661], "rc5", 5)]))
+    mk("single-demand-category", lambda sp: sp["junctions"][0].update(demands=[[0.01, None, "dom"]]))
+    mk("tank-head-control", lambda sp: sp["controls"].append(ctl(["val", "node", "T1", "head", ">", 24.0])))
+    mk("mass-source", lambda sp: (sp["sources"].append({"name": "INP1", "node": "J1", "type": "MASS", "strength": 0.008296, "pat": None}),
+                                  sp["options"].update(quality={"parameter": "CHEMICAL", "chemical_name": "Cl", "inpfile_units": "mg/L"})))
+    mk("default-pattern-1", lambda sp: sp["patterns"].append({"name": "1", "mult": [0.5, 2.0]}))
+    mk("quality-ug", lambda sp: (sp["junctions"][0].update(iq=0.0005), sp["sources"].append({"name": "INP1", "node": "J1", "type": "CONCEN", "strength": 0.001, "pat": None}),
+                                 sp["options"].update(quality={"parameter": "CHEMICAL", "chemical_name": "Cl", "inpfile_units": "ug/L"})))
+    return out
+
+
+def normalise_text(txt):
+    """an INP file modulo the header comment lines (file name, WNTR version, creation time)"""
+    return "\n".join(l.rstrip() for l in txt.splitlines() if not l.startswith("; "))
+
+
+class C12(Check):
+    pid = "C12"
+    level = "proof"
+    prop_modules = ["WntrModel.Props.C12"]
+    manifest = dict(
+        category="proof",
+        text="Lean theorems over tables regenerated from wntr/epanet/io.py on every run: every attribute slot of every INP section is "
+        "written and read back, with conversion calls of opposite direction and equal conversion class for each of the ten flow units, "
+        "every mass unit / reaction order / Darcy flag and EVERY value (inp_field_roundtrip, lifting C17's inverse theorem); every "
+        "definition attribute to_dict emits that the statement does not exclude is carried by such a slot (inp_attribute_coverage); the "
+        "option keywords written are read, 2.0 omitting exactly the 2.2-specific ones (option_keywords_roundtrip); the text form of "
+        "simple controls and rules re-parses to the same control (control_line_roundtrip, rule_text_roundtrip) with the counterexamples "
+        "for mixed AND/OR and for tank-head conditions. The real write_inpfile/read_inpfile is run on generated API-built models x flow "
+        "unit x version and compared field by field at the precision of the writer's own format specs; a second cycle must change nothing.",
+        design_ref="DESIGN.md §5 C12",
+        note="partial: modelled, not verified: number formatting and the INP tokeniser (the per-field error bound is derived from the "
+        "format spec the translator finds and checked against the implementation on every case); the hand-written specification table "
+        "(which writer slot carries which attribute) is trusted; control/rule text printing and parsing is hand-modelled and tied by the "
+        "driver correspondence; element constructors (add_*) are exercised, not modelled",
+        technique="Lean 4 proof over translator-regenerated schema tables + differential run against the Lean driver + round-trip oracle on the implementation",
+    )
+    rule = ("obligations: theorems of Props/C12.lean over Gen/SchemaInp.lean, Gen/SchemaDict.lean, Gen/Units.lean. correspondence cases: "
+            "(model, flow unit, INP version) write/read/compare + second cycle; distinct = distinct feature signature x unit x version; "
+            "non-trivial = the model has controls or rules, several demands, sources or curves")
+    trusted_base = ["translator harness/props/c12.py (ast of wntr/epanet/io.py: value flow into format calls and into add_*/attribute destinations)",
+                    "the specification table FIELDS / OUTSIDE of harness/props/c12.py (which slot carries which attribute; what the statement excludes)",
+                    "Python float formatting / parsing (bounded per field by the format spec, checked on every case)"]
+    assumptions = ["a value printed with {:W.Ng} is reproduced to 0.5*10^(1-N) relative, with {:.Nf} to 0.5*10^-N absolute (in file units), str() exactly",
+                   "model names contain no white space or ';' (the INP tokeniser is not modelled)",
+                   "a pump speed setting of 1.0 and an unset one are the same (the format's default); a closed pump has no place for a setting"]
+
+    # ---------------------------------------------------------------- translate
+    def translate(self, ctx):
+        wntr = vlib.import_wntr()
+        rows, fns, consts = read_io_tables(wntr)
+        kw = read_keywords(fns)
+        self.rows = rows
+        txt, n = gen_schema_inp_lean(wntr, rows, kw)
+        ctx.cov["schema_rows"] = n
+        ctx.cov["schema_fields"] = len(FIELDS)
+        vlib.write_if_changed(os.path.join(vlib.GEN, "SchemaInp.lean"), txt)
+        # C12 reuses the to_dict key sets of C13's translator
+        import c13
+        em, dfl = c13.reflect_emitted(wntr)
+        vlib.write_if_changed(os.path.join(vlib.GEN, "SchemaDict.lean"), c13.gen_schema_lean(em, dfl, c13.read_from_dict_rows()))
+
+    # ---------------------------------------------------------------- one case
+    def roundtrip(self, wntr, prec, label, sp, wn, units, version, workdir, ctx=None):
+        """-> list of Failure for (model, unit, version)"""
+        fails = []
+        rp = {"case": label, "units": units, "version": version, "spec": sp}
+        f1 = os.path.join(workdir, "a.inp")
+        f2 = os.path.join(workdir, "b.inp")
+
+        def F(key, what, **kw):
+            d = dict(rp)
+            d.update(kw)
+            fails.append(Failure(key, what, d))
+
+        try:
+            m0 = canon(wntr, wn)
+            c0 = normalise(m0, version, "orig")
+            try:
+                wntr.network.write_inpfile(wn, f1, units=units, version=version)
+            except Exception as e:
+                F("write-raises-%s" % type(e).__name__, "write_inpfile raises %s: %s" % (type(e).__name__, str(e)[:150]), observed=repr(e))
+                return fails
+            try:
+                w2 = wntr.network.read_inpfile(f1)
+            except Exception as e:
+                F("read-raises-%s-%s" % (type(e).__name__, _exc_class(e)), "read_inpfile of the file WNTR wrote raises %s: %s" % (type(e).__name__, str(e)[:150]), observed=repr(e))
+                return fails
+            m2 = canon(wntr, w2)
+            c2 = normalise(m2, version, "reread")
+            seen = set()
+            for (key, path, old, new, note) in Comparer(prec, wn, units, version, m0).run(c0, c2):
+                if ctx:
+                    ctx.count("diff:" + key)
+                if key in seen:
+                    continue
+                seen.add(key)
+                F(key, "re-read model differs at %s: %r -> %r (units %s, version %s) %s" % (path, old, new, units, version, note),
+                  where=path, expected=old, observed=new)
+            # ---- second cycle: nothing further changes
+            try:
+                wntr.network.write_inpfile(w2, f2, units=units, version=version)
+                w3 = wntr.network.read_inpfile(f2)
+            except Exception as e:
+                F("second-cycle-raises-%s" % type(e).__name__, "second write/read cycle raises %s: %s" % (type(e).__name__, str(e)[:150]), observed=repr(e))
+                return fails
+            t1, t2 = normalise_text(open(f1).read()), normalise_text(open(f2).read())
+            if ctx:
+                ctx.count("second-cycle:" + ("text-identical" if t1 == t2 else "text-differs"))
+            m3 = canon(wntr, w3)
+            seen = set()
+            # "nothing further": the second re-read equals the first at the precision of the file (a converted value printed
+            # with str() may move by one unit in the last place per cycle; a drift larger than the field's bound is a failure)
+            for (key, path, old, new, note) in Comparer(prec, w2, units, version, m2).run(c2, normalise(m3, version, "second")):
+                key = "second-cycle-" + key
+                if key in seen:
+                    continue
+                seen.add(key)
+                F(key, "a second write/read cycle changes the model again at %s: %r -> %r (units %s, version %s) %s" % (path, old, new, units, version, note),
+                  where=path, expected=old, observed=new)
+        finally:
+            for f in (f1, f2):
+                if os.path.exists(f):
+                    os.remove(f)
+        return fails
+
+    def _cases(self, ctx):
+        for fn, item in vlib.corpus_items("C12"):
+            yield ("corpus:" + fn, item["spec"], item.get("units"), item.get("version"))
+        for label, sp in directed_specs():
+            yield ("directed:" + label, sp, None, None)
+        n = 40 if ctx.quick else 150
+        for i in range(n):
+            yield ("gen%d" % i, G.gen_spec(ctx.rng, size=1 if i % 3 else 2, inp_only=True), None, None)
+
+    def correspondence(self, ctx):
+        wntr = vlib.import_wntr()
+        logging.getLogger("wntr").setLevel(logging.CRITICAL)
+        failures, broken = [], []
+        if not hasattr(self, "rows"):
+            raise BrokenTie("translator produced no tables")
+        prec = Precision(wntr, self.rows)
+        workdir = os.path.join(WORK, "run-%d" % os.getpid())
+        os.makedirs(workdir, exist_ok=True)
+        nunits = 3 if ctx.quick else 10
+        text_lines = []
+        try:
+            with warnings.catch_warnings():
+                warnings.simplefilter("ignore")
+                for ci, (label, sp, u0, v0) in enumerate(self._cases(ctx)):
+                    try:
+                        wn = G.realise(wntr, sp)
+                    except Exception as e:
+                        raise vlib.Infra("generator produced a model the API refuses (%s): %s: %s" % (label, type(e).__name__, e))
+                    feats = G.features(sp)
+                    for f in feats:
+                        ctx.count("feat:" + (f.split("=")[0] if f.startswith("rule:priority") else f))
+                    nontriv = bool(sp["controls"]) or bool(sp["sources"]) or bool(sp["curves"]) or any(len(j["demands"] or []) > 1 for j in sp["junctions"])
+                    if u0:
+                        units = [u0]
+                    elif label.startswith("directed"):
+                        units = [UNITS[(ctx.seed + ci) % 10], UNITS[(ctx.seed + ci + 5) % 10]]
+                    else:
+                        units = [UNITS[(ctx.seed * 3 + ci + k * (10 // nunits if nunits < 10 else 1)) % 10] for k in range(nunits)]
+                        units = list(dict.fromkeys(units))
+                    for u in units:
+                        for ver in ([v0] if v0 else [2.2, 2.0]):
+                            ctx.case((tuple(sorted(feats)), u, ver), nontriv)
+                            ctx.count("units:" + u)
+                            ctx.count("version:%s" % ver)
+                            fs = self.roundtrip(wntr, prec, label, sp, wn, u, ver, workdir, ctx)
+                            ctx.count("outcome:" + ("equal" if not fs else "differs"))
+                            failures += fs
+                    if len(ctx.samples) < 4 and label.startswith("gen"):
+                        ctx.sample({"case": label, "features": sorted(feats)[:25], "units": units})
+                    text_lines += self._text_requests(wntr, label, sp, wn)
+        finally:
+            try:
+                for f in os.listdir(workdir):
+                    os.remove(os.path.join(workdir, f))
+                os.rmdir(workdir)
+            except OSError:
+                pass
+        broken += self._text_correspondence(ctx, wntr, text_lines)
+        return failures, broken
+
+    # filled in below (control / rule text correspondence with the Lean driver)
+    def _text_requests(self, wntr, label, sp, wn):
+        return []
+
+    def _text_correspondence(self, ctx, wntr, lines):
+        return []
+
+    def search(self, ctx, broken):
+        """a broken table proof / translator: run the directed models and a wider stream in all ten units"""
+        wntr = vlib.import_wntr()
+        logging.getLogger("wntr").setLevel(logging.CRITICAL)
+        rows = getattr(self, "rows", None)
+        if rows is None:
+            try:
+                rows, _, _ = read_io_tables(wntr)
+            except Exception:
+                rows = []
+        prec = Precision(wntr, rows)
+        workdir = os.path.join(WORK, "search-%d" % os.getpid())
+        os.makedirs(workdir, exist_ok=True)
+        out = []
+        try:
+            with warnings.catch_warnings():
+                warnings.simplefilter("ignore")
+                specs = directed_specs() + [("wide%d" % i, G.gen_spec(ctx.rng, size=2, inp_only=True)) for i in range(6 if ctx.quick else 25)]
+                for label, sp in specs:
+                    wn = G.realise(wntr, sp)
+                    for u in UNITS:
+                        out += self.roundtrip(wntr, prec, label, sp, wn, u, 2.2, workdir)
+        finally:
+            try:
+                for f in os.listdir(workdir):
+                    os.remove(os.path.join(workdir, f))
+                os.rmdir(workdir)
+            except OSError:
+                pass
+        return out
+
+    def replay(self, ctx, path):
+        wntr = vlib.import_wntr()
+        logging.getLogger("wntr").setLevel(logging.CRITICAL)
+        r = json.load(open(path if os.path.isabs(path) else os.path.join(vlib.VERIF, path)))
+        rp = r.get("replay", {})
+        print(json.dumps({k: v for k, v in r.items() if k != "replay"}, indent=1)[:2000])
+        rows, _, _ = read_io_tables(wntr)
+        workdir = os.path.join(WORK, "replay-%d" % os.getpid())
+        os.makedirs(workdir, exist_ok=True)
+        try:
+            with warnings.catch_warnings():
+                warnings.simplefilter("ignore")
+                wn = G.realise(wntr, rp["spec"])
+                fs = self.roundtrip(wntr, Precision(wntr, rows), rp.get("case"), rp["spec"], wn, rp["units"], rp["version"], workdir)
+        finally:
+            try:
+                os.rmdir(workdir)
+            except OSError:
+                pass
+        hit = [f for f in fs if f.key == r.get("key")]
+        print("replay: %s" % ("REPRODUCED " + hit[0].what if hit else "not reproduced on the current tree"))
+        return 1 if hit else 0
+
+
+def _section_of(text, line):
+    sec = "?"
+    for l in text.splitlines():
+        if l.startswith("["):
+            sec = l.strip("[] ")
+        if l == line:
+            return sec
+    return sec
+
+
+def _exc_class(e):
+    return re.sub(r"[^A-Za-z]+", "-", str(e))[:30].strip("-")
+
+
+if __name__ == "__main__":
+    vlib.run_check(C12)
